@@ -8,7 +8,7 @@
    d_itw g J = world position of (continuous) index J on grid g. *)
 From Coq Require Import ZArith QArith Qcanon List Lia.
 From DV Require Import Base.Field Base.LinAlg Base.QcInst Model.Enums Model.Homog Model.Grid Model.Sampler Model.SamplerQc
-  Gen.GridT Gen.GridCtor Gen.GridDerive Model.GridDerive Model.GridDeriveQc Model.ImageOps Model.ImageOpsQc
+  Gen.GridT Gen.GridCtor Gen.GridDerive Model.GridDerive Model.GridDeriveQc Model.ImageOps Model.ImageOpsQc Model.ImageOpsCheck Gen.ImageOpsT
   Proofs.C03Resize Proofs.C04Axis Proofs.C04World Proofs.C04Ops Proofs.C04Qc Proofs.C04Gen.
 Import ListNotations.
 
@@ -37,7 +37,7 @@ Proof. exact (lockstep_resize K Kf Kc). Qed.
 Theorem C04_interp_src_is_rsz :
   forall (ac : bool) (nz mz j : Z), (of_Z mz - 1 : K) <> 0 -> (of_Z mz : K) <> 0 ->
   interp_src (K:=K) ac nz mz j = rsz ac (of_Z nz) (of_Z mz) (of_Z j).
-Proof. exact (interp_src_rsz K Kf). Qed.
+Proof. exact (interp_src_rsz K Kf Kc). Qed.
 
 (* 2. resample (same center and direction, new spacing, any new size) *)
 Theorem C04_lockstep_resample :
@@ -114,7 +114,7 @@ Theorem C04_ramp_resize2 :
   ival (interp_ax floorK PBorder 1 (resize_src ac (nz 1%nat) (mz 1%nat)) (mz 1%nat)
           (interp_ax floorK PBorder 0 (resize_src ac (nz 0%nat) (mz 0%nat)) (mz 0%nat) im)) [jx; jy]
   = dot A (gen_pts 2 GRID WORLD (vtab 2 (fun i => of_Z (mz i)))
-             ((if ac then gen_resize_spacing_ac else gen_resize_spacing_nac) 2 (vtab 2 (fun i => of_Z (nz i))) (vtab 2 s) (vtab 2 c)
+             ((if ac then gen_resize_spacing_ac else gen_resize_spacing_nac) 2%nat (vtab 2 (fun i => of_Z (nz i))) (vtab 2 s) (vtab 2 c)
                 (tab 2 2 d) (vtab 2 (fun i => of_Z (mz i))))
              (vtab 2 c) (tab 2 2 d) [of_Z jx; of_Z jy]) + b.
 Proof. exact (ramp_resize2 K Kf Kc floorK). Qed.
@@ -133,7 +133,7 @@ Theorem C04_ramp_resize3 :
          (interp_ax floorK PBorder 1 (resize_src ac (nz 1%nat) (mz 1%nat)) (mz 1%nat)
            (interp_ax floorK PBorder 0 (resize_src ac (nz 0%nat) (mz 0%nat)) (mz 0%nat) im))) [jx; jy; jz]
   = dot A (gen_pts 3 GRID WORLD (vtab 3 (fun i => of_Z (mz i)))
-             ((if ac then gen_resize_spacing_ac else gen_resize_spacing_nac) 3 (vtab 3 (fun i => of_Z (nz i))) (vtab 3 s) (vtab 3 c)
+             ((if ac then gen_resize_spacing_ac else gen_resize_spacing_nac) 3%nat (vtab 3 (fun i => of_Z (nz i))) (vtab 3 s) (vtab 3 c)
                 (tab 3 3 d) (vtab 3 (fun i => of_Z (mz i))))
              (vtab 3 c) (tab 3 3 d) [of_Z jx; of_Z jy; of_Z jz]) + b.
 Proof. exact (ramp_resize3 K Kf Kc floorK). Qed.
@@ -269,9 +269,18 @@ Proof. exact (shape_agrees_resize K ceilK leK). Qed.
 Theorem C04_ramp_chain :
   forall (I : Type) (val ramp : nat -> I -> K) (corners : nat -> I -> list I),
   (forall k J, (forall C, In C (corners k J) -> val k C = ramp k C) -> val (S k) J = ramp (S k) J) ->
-  forall dom0 : I -> Prop, (forall J, dom0 J -> val 0 J = ramp 0 J) ->
+  forall dom0 : I -> Prop, (forall J, dom0 J -> val 0%nat J = ramp 0%nat J) ->
   forall k J, good I corners dom0 k J -> val k J = ramp k J.
 Proof. exact (ramp_chain K). Qed.
+(* 10. the traced code (Gen/ImageOpsT.v, regenerated on every run): what the ImageBatch methods crop / pad / center_crop /
+       center_pad / narrow / region_of_interest / avg_pool do to a tensor of distinct symbols IS the model's data operation;
+       the grid they return has the data's shape and puts every output index at the world position of the sample it holds;
+       resize / downsample / upsample hand F.interpolate a (size, align_corners) pair for which the returned grid is in
+       lock-step (including the calls where an explicit align_corners argument differs from the grid's flag).
+       ok_pool_aniso records, faithfully, that a tuple kernel_size is read in tensor order by the data path and in grid
+       order by the grid path (data 2 x 2, grid 3 x 1). *)
+Theorem C04_traced_index_ops : traced_index_ops_ok K.
+Proof. exact (traced_index_ops_hold_K K Kf Kc). Qed.
 End Statements.
 
 Print Assumptions C04_lockstep_resize.
@@ -283,14 +292,15 @@ Print Assumptions C04_ramp_resample3_partial.
 Print Assumptions C04_crop_exact3.
 Print Assumptions C04_center_pad_exact2.
 Print Assumptions C04_ramp_chain.
+Print Assumptions C04_traced_index_ops.
 
-(* 10. the ceiling of the executable instance satisfies the hypotheses of theorem 8 *)
+(* 11. the ceiling of the executable instance satisfies the hypotheses of theorem 8 *)
 Theorem C04_ceilQc :
   (forall z : Z, ceilQc (of_Z (K:=QcF) z) = z) /\
   (forall (x : Qc) (z : Z), ceilQc (fsub (K:=QcF) x (of_Z z)) = (ceilQc x - z)%Z).
 Proof. exact (conj ceilQc_int ceilQc_shift). Qed.
 
-(* 11. where the unchanged code does NOT keep data and grid in lock-step (faithful model, vm_compute witnesses) *)
+(* 12. where the unchanged code does NOT keep data and grid in lock-step (faithful model, vm_compute witnesses) *)
 Theorem C04_resample_same_shape_refuted :
   let op := OResample (K:=QcF) [q 6 5; q 1 1] 1 in
   let g' := apply_op (K:=QcF) ceilQc floorQc leQc 2 op ex_grid in
@@ -306,13 +316,7 @@ Theorem C04_upsample_fractional_size_refuted :
   nZ (K:=QcF) ceilQc g = [3; 2]%Z /\ nZ (K:=QcF) ceilQc g' = [5; 4]%Z /\ up_size 1 None [3; 2]%Z = [6; 4]%Z.
 Proof. exact upsample_fractional_size_refuted. Qed.
 
-(* 12. the traced code (Gen/ImageOpsT.v): what the ImageBatch methods do to a tensor of distinct symbols and to a symbolic
-       grid IS the model's data / grid operation on the traced argument sets *)
-Theorem C04_traced_index_ops : traced_index_ops_ok QcF.
-Proof. exact traced_index_ops_hold. Qed.
-
 Print Assumptions C04_resample_same_shape_refuted.
-Print Assumptions C04_traced_index_ops.
 
 (* non-vacuity: the hypotheses of theorem 6 hold for a concrete ramp image, and the executable model resizes it to the
    same ramp on the resized grid (4 x 3 -> 7 x 5, align_corners = true), at a non-trivial output index *)
